@@ -11,6 +11,7 @@
      _on_nack + nack_interest           -> [do_nack] with [nack_hit], [nack_rec] (done-guard)
      InterestTreeNode.cancel/_clean_up  -> [do_shutdown]
      _on_interest                       -> [gate], [do_incoming]
+     app.int_validator = v (legacy)     -> [do_setdefault]
    asyncio is the event alphabet: a future is an [fstate] with asyncio's rule that set_result/set_exception on a
    done future raises InvalidStateError ([fut_set], the error is collected in [errs]); a waiter is the task
    suspended in asyncio.wait_for with the semantics of CPython 3.12's timeouts.Timeout/Task.cancel:
@@ -85,14 +86,16 @@ Record st := mkS {
   refused : list N;                        (* express() raised NetworkError (face not running) *)
   fib : list (name * (N * bool));          (* attached prefix -> (handler id, has validator) *)
   hcalls : list (N * inc);                 (* handler invocations: handler id, the Interest *)
-  ivcalls : list N }.                      (* route-validator invocations for incoming Interests *)
+  ivcalls : list N;                        (* invocations of an application-supplied validator for incoming Interests *)
+  dflt : bool }.                           (* legacy app.int_validator: true = replaced by a validator of the application,
+                                              false = the library default sha256_digest_checker *)
 
-Definition init : st := mkS 0 false 0 [] [] [] [] [] [] [] [] [] [].
+Definition init : st := mkS 0 false 0 [] [] [] [] [] [] [] [] [] [] false.
 
 Definition set_now (s : st) (t : N) : st :=
-  mkS t s.(shut) s.(next_nid) s.(pit) s.(ints) s.(face_out) s.(log) s.(vcalls) s.(errs) s.(refused) s.(fib) s.(hcalls) s.(ivcalls).
+  mkS t s.(shut) s.(next_nid) s.(pit) s.(ints) s.(face_out) s.(log) s.(vcalls) s.(errs) s.(refused) s.(fib) s.(hcalls) s.(ivcalls) s.(dflt).
 Definition set_pit (s : st) (p : pit_t) : st :=
-  mkS s.(now) s.(shut) s.(next_nid) p s.(ints) s.(face_out) s.(log) s.(vcalls) s.(errs) s.(refused) s.(fib) s.(hcalls) s.(ivcalls).
+  mkS s.(now) s.(shut) s.(next_nid) p s.(ints) s.(face_out) s.(log) s.(vcalls) s.(errs) s.(refused) s.(fib) s.(hcalls) s.(ivcalls) s.(dflt).
 
 Definition get_int (s : st) (i : N) : option irec := al_get N.eqb s.(ints) i.
 Definition pit_get (p : pit_t) (n : name) : option pnode := al_get name_eqb p n.
@@ -110,7 +113,7 @@ Definition upd_all (f : N -> irec -> eff) (s : st) : st :=
       (s.(log) ++ flat_map (fun kr : N * irec => (f (fst kr) (snd kr)).(f_log)) s.(ints))
       (s.(vcalls) ++ flat_map (fun kr : N * irec => (f (fst kr) (snd kr)).(f_vcalls)) s.(ints))
       (s.(errs) ++ flat_map (fun kr : N * irec => (f (fst kr) (snd kr)).(f_errs)) s.(ints))
-      s.(refused) s.(fib) s.(hcalls) s.(ivcalls).
+      s.(refused) s.(fib) s.(hcalls) s.(ivcalls) s.(dflt).
 
 Definition mem (i : N) (l : list N) : bool := existsb (N.eqb i) l.
 
@@ -125,7 +128,7 @@ Definition pit_hits (hit : name -> N -> entry -> bool) (p : pit_t) : list N :=
 (* ---- express_raw_interest ---- *)
 Definition do_express (fe : frontend) (s : st) (i : N) (n : name) (cbp : bool) (dig : option N) (life : N) (vm : vmode) : st :=
   if s.(shut) then
-    mkS s.(now) s.(shut) s.(next_nid) s.(pit) s.(ints) s.(face_out) s.(log) s.(vcalls) s.(errs) (s.(refused) ++ [i]) s.(fib) s.(hcalls) s.(ivcalls)
+    mkS s.(now) s.(shut) s.(next_nid) s.(pit) s.(ints) s.(face_out) s.(log) s.(vcalls) s.(errs) (s.(refused) ++ [i]) s.(fib) s.(hcalls) s.(ivcalls) s.(dflt)
   else if al_mem N.eqb s.(ints) i then s
   else
     let e := mkE i cbp dig in
@@ -135,7 +138,7 @@ Definition do_express (fe : frontend) (s : st) (i : N) (n : name) (cbp : bool) (
                           end in
     let r := mkI n cbp dig life (s.(now) + life) vm nid FPending WNotAwaited 0 false false VNone in
     mkS s.(now) s.(shut) nxt (al_set name_eqb s.(pit) n (nid, l ++ [e])) (s.(ints) ++ [(i, r)]) (s.(face_out) ++ [i])
-        s.(log) s.(vcalls) s.(errs) s.(refused) s.(fib) s.(hcalls) s.(ivcalls).
+        s.(log) s.(vcalls) s.(errs) s.(refused) s.(fib) s.(hcalls) s.(ivcalls) s.(dflt).
 
 (* ---- _wait_for_data up to the suspension in wait_for ---- *)
 Definition await_rec (fe : frontend) (nw : N) (r : irec) : irec :=
@@ -289,7 +292,7 @@ Definition do_shutdown (fe : frontend) (s : st) : st :=
     let hits := pit_hits (fun _ _ _ => true) s.(pit) in
     let s1 := upd_all (fun i r => if mem i hits then only (set_fut r (fut_cancel r.(i_fut))) else keep r) s in
     mkS s1.(now) true s1.(next_nid) [] s1.(ints) s1.(face_out) s1.(log) s1.(vcalls) s1.(errs) s1.(refused)
-        (match fe with V2 => s1.(fib) | V1 => [] end) s1.(hcalls) s1.(ivcalls).
+        (match fe with V2 => s1.(fib) | V1 => [] end) s1.(hcalls) s1.(ivcalls) s1.(dflt).
 
 (* ---- incoming Interests (C05, second half) ---- *)
 Definition lpm {V} (f : list (name * V)) (n : name) : option (name * V) :=
@@ -304,14 +307,17 @@ Definition lpm {V} (f : list (name * V)) (n : name) : option (name * V) :=
 Definition do_attach (s : st) (p : name) (hasv : bool) : st :=
   if al_mem name_eqb s.(fib) p then s
   else mkS s.(now) s.(shut) s.(next_nid) s.(pit) s.(ints) s.(face_out) s.(log) s.(vcalls) s.(errs) s.(refused)
-           (s.(fib) ++ [(p, (N.of_nat (length s.(fib)), hasv))]) s.(hcalls) s.(ivcalls).
+           (s.(fib) ++ [(p, (N.of_nat (length s.(fib)), hasv))]) s.(hcalls) s.(ivcalls) s.(dflt).
 
 (* ndn.security.validator.digest_validator.sha256_digest_checker on the decoded signature class:
    1 = DigestSha256 with a correct value, 2 = DigestSha256 with a wrong value, other = not DigestSha256 *)
 Definition sha256_digest_checker (sig : N) : bool := negb (sig =? 2).
 
-(* _on_interest: Some (handler, has route validator) = the handler is called *)
-Definition gate (fe : frontend) (f : list (name * (N * bool))) (k : inc) : option (N * bool) :=
+(* _on_interest: Some (handler, has route validator) = the handler is called.
+   [dv] = the application-wide int_validator as it is NOW (legacy submit_interest:
+   `validator = node.validator if node.validator else self.int_validator`, read when the Interest is dispatched);
+   appv2 has no application-wide validator and never reads it. *)
+Definition gate (fe : frontend) (dv : bool) (f : list (name * (N * bool))) (k : inc) : option (N * bool) :=
   match lpm f k.(k_name) with
   | None => None
   | Some (_, (h, hasv)) =>
@@ -328,28 +334,35 @@ Definition gate (fe : frontend) (f : list (name * (N * bool))) (k : inc) : optio
         | V1 =>
             if sgn then
               if hasv then (if pass V1 k.(k_verdict) then Some (h, hasv) else None)
+              else if dv then (if pass V1 k.(k_verdict) then Some (h, hasv) else None)
               else (if sha256_digest_checker k.(k_sig) then Some (h, hasv) else None)
             else Some (h, hasv)
         end
   end.
-(* is the route's own validator invoked? *)
-Definition gate_consults (fe : frontend) (f : list (name * (N * bool))) (k : inc) : bool :=
+(* is a validator supplied by the application (the route's own, or the replaced application-wide one) invoked? *)
+Definition gate_consults (fe : frontend) (dv : bool) (f : list (name * (N * bool))) (k : inc) : bool :=
   match lpm f k.(k_name) with
   | None => false
   | Some (_, (h, hasv)) =>
       let sgn := negb (k.(k_sig) =? 0) in
       let sig_required := k.(k_params) || sgn in
       if sig_required && negb k.(k_digest_ok) then false
-      else hasv && match fe with V2 => sig_required | V1 => sgn end
+      else match fe with V2 => hasv && sig_required | V1 => (hasv || dv) && sgn end
   end.
 
 Definition do_incoming (fe : frontend) (s : st) (k : inc) : st :=
-  let iv := if gate_consults fe s.(fib) k then s.(ivcalls) ++ [k.(k_id)] else s.(ivcalls) in
-  let hc := match gate fe s.(fib) k with
+  let iv := if gate_consults fe s.(dflt) s.(fib) k then s.(ivcalls) ++ [k.(k_id)] else s.(ivcalls) in
+  let hc := match gate fe s.(dflt) s.(fib) k with
             | Some (h, _) => s.(hcalls) ++ [(h, k)]
             | None => s.(hcalls)
             end in
-  mkS s.(now) s.(shut) s.(next_nid) s.(pit) s.(ints) s.(face_out) s.(log) s.(vcalls) s.(errs) s.(refused) s.(fib) hc iv.
+  mkS s.(now) s.(shut) s.(next_nid) s.(pit) s.(ints) s.(face_out) s.(log) s.(vcalls) s.(errs) s.(refused) s.(fib) hc iv s.(dflt).
+
+(* app.int_validator = ...: an attribute assignment; the routes are not touched (set_interest_filter stores only a
+   validator given with the route).  It survives shutdown (_clean_up clears the tables, not the attribute). *)
+Definition do_setdefault (s : st) (own : bool) : st :=
+  mkS s.(now) s.(shut) s.(next_nid) s.(pit) s.(ints) s.(face_out) s.(log) s.(vcalls) s.(errs) s.(refused) s.(fib)
+      s.(hcalls) s.(ivcalls) own.
 
 (* ---- synchronous part of an event ---- *)
 Definition apply (fe : frontend) (s : st) (e : ev) : st :=
@@ -364,6 +377,7 @@ Definition apply (fe : frontend) (s : st) (e : ev) : st :=
   | AdvanceTo _ => s
   | Attach p hasv _ => do_attach s p hasv
   | Incoming k n hp sg dok v _ => do_incoming fe s (mkInc k n hp sg dok v)
+  | SetDefault own _ => do_setdefault s own
   end.
 
 (* ---- one event = one (or, without a tie, several) loop turns ---- *)
